@@ -26,6 +26,35 @@ Theorem C12_fits_is_leaf : forall fuel a R2 k g,
 Proof. exact asplit_fits. Qed.
 Print Assumptions C12_fits_is_leaf.
 
+(* Each sub-group is then solved optimally with that reduced range as the cost of not
+   linking (costs brought to the common denominator q^(2k); null link at R2*p^(2k)). *)
+Theorem C12_leaf_solved_optimally : forall a R2 k g,
+  acfg_ok a -> 0 <= R2 -> Forall real_item g -> Forall (within a R2 k) g ->
+  exists pairs, solve_leaf a R2 (Leaf k g) = map strip pairs /\ is_opt (leaf_items a R2 k g) pairs.
+Proof. exact leaf_solved_optimally. Qed.
+Print Assumptions C12_leaf_solved_optimally.
+
+(* ... and the hypotheses of the previous theorem hold for every leaf the split produces *)
+Theorem C12_leaves_wellformed : forall a R2 fuel k g ls,
+  Forall real_item g -> asplit fuel a R2 k g = Ok ls -> Forall leaf_real ls.
+Proof. exact asplit_leaves_real. Qed.
+Print Assumptions C12_leaves_wellformed.
+
+(* SubnetOversizeException is raised exactly when a still-oversize group has reached a
+   range at or below adaptive_stop: (=>) a raise exhibits such a group among the groups met
+   while splitting; (<=) a normal return (fuel not exhausted) means none was. *)
+Theorem C12_raise_only_at_stop : forall a R2 fuel k g,
+  asplit fuel a R2 k g = Oversize ->
+  exists k' g', reach a R2 k g k' g' /\ (a_max a < length g')%nat /\ at_stop a k' = true.
+Proof. exact asplit_raise_sound. Qed.
+Print Assumptions C12_raise_only_at_stop.
+
+Theorem C12_no_raise_means_none_at_stop : forall a R2 fuel k g ls,
+  asplit fuel a R2 k g = Ok ls -> ~ In OutOfFuel ls ->
+  forall k' g', reach a R2 k g k' g' -> (a_max a < length g')%nat -> at_stop a k' = false.
+Proof. exact asplit_ok_complete. Qed.
+Print Assumptions C12_no_raise_means_none_at_stop.
+
 (* non-vacuity / raise behaviour on a concrete oversize group (limit 1, step 1/2):
    three sources competing for 0..2; stop at 1/4 of the range -> split succeeds;
    stop at 3/4 of the range -> raise at the first level. *)
